@@ -16,3 +16,5 @@ def run(rep, W, ctx):
     # a malformed X-Client-Id must be REFUSED, not replaced: the id the handlers act on is the parsed header value and nothing
     # else (a header helper that turns a parse failure into a default id accepts a malformed request)
     S.s_clientid(rep, W)
+    # "Bodies up to and including the limit are accepted": nothing below the HTTP layer turns a valid request away either
+    S.s_failmodes(rep, W)
